@@ -139,6 +139,20 @@ example :
     CToy.good_ord CToy.good_cont CToy.hwal Toy.hseq
   ⟨h.1, h.2 CToy.good_phase, CToy.old_ne_new⟩
 
+/-- non-vacuity of T4.3a / T4.4 on `CToy.good`: the linearisation of the part before the meta write consists of `EvPre`
+events, is flushed, and the linearisation of the whole trace is `pre ++ [meta write, meta fsync] ++ post` with `PostOK`. -/
+example :
+    (∀ ev ∈ lin CToy.d0 CToy.cpre, EvPre Toy.P CToy.d0 ev) ∧ (run ⟨CToy.d0, []⟩ (lin CToy.d0 CToy.cpre)).vol = [] ∧
+    ∃ post, lin CToy.d0 CToy.good = lin CToy.d0 CToy.cpre ++ ([Ev.eff (.setMeta Toy.m1), Ev.fsync File.fMeta] ++ post) ∧
+      PostOK Toy.P Toy.w1 ⟨applyEff (run ⟨CToy.d0, []⟩ (lin CToy.d0 CToy.cpre)).dur (.setMeta Toy.m1), []⟩ post := by
+  obtain ⟨h1, h2, _, h4⟩ := T4_4_order_discipline_gives_T4_1_hypotheses Toy.P CToy.d0 CToy.cpre CToy.crest 10 Toy.m1
+    Toy.w1 CToy.good_ord CToy.good_cont
+  refine ⟨h1, h2, ?_⟩
+  rcases h4 CToy.good (List.prefix_refl _) with h | h | h
+  · have h1 := h.1; rw [CToy.good_phase] at h1; cases h1
+  · have h1 := h.1; rw [CToy.good_phase] at h1; cases h1
+  · exact h.2
+
 /-- T4.6 **what the order monitor exists for**: in `CToy.bad` the fsync of `ln` BEGINS before the write of the new root
 page has ENDED (so it does not cover it) and the meta page is written without a further fsync of `ln`.  Every effect
 satisfies its content clause, every file was "fsynced after it was written" in Begin order — yet there is a crash image
@@ -311,6 +325,30 @@ example :
         (absTrace (LogRec := Nat) OToy.C {} 0 OToy.goodLines) := by rw [OToy.good_abs]; exact CToy.good_cont
     exact (T4_8_accepted_real_trace_powerloss_atomic Toy.P OToy.C OToy.goodLines st hc CToy.d0 CToy.hinert
       CToy.cpre CToy.crest 10 Toy.m1 Toy.w1 OToy.good_abs hcont CToy.hwal Toy.hseq).1
+
+/-- non-vacuity of T4.7b / T4.8b on the same rendering: when the meta write of `OToy.goodLines` begins nothing is
+volatile, and with the clauses of T4.2c (which the clauses of T4.1 imply, `contChk_weaken`) all crash images of all
+prefixes recover — rollback log included — to the old or the new state. -/
+example :
+    (crun (cinit CToy.d0) CToy.cpre).vol = [] ∧
+    (∀ cp, cp <+: absTrace (LogRec := Nat) OToy.C {} 0 OToy.goodLines → ∀ img,
+      IsCImage (crun (cinit CToy.d0) cp) img →
+        absOfL Toy.P Toy.L img = absOfL Toy.P Toy.L CToy.d0 ∨
+        absOfL Toy.P Toy.L img = (absNew Toy.P (crun (cinit CToy.d0) CToy.cpre).dur Toy.m1 Toy.w1,
+          absLog Toy.L Toy.m1 (crun (cinit CToy.d0) CToy.cpre).dur.log)) := by
+  cases hc : checkOrder OToy.goodLines with
+  | error msg => have := OToy.good_accepted; rw [hc] at this; cases this
+  | ok st =>
+    refine ⟨(T4_7b_monitor_implies_hflushed OToy.C OToy.goodLines st hc CToy.d0 CToy.cpre CToy.crest 10 Toy.m1
+      OToy.good_abs).1, ?_⟩
+    have hcont : cAll (contChk (AllowedPreL' Toy.P Toy.L CToy.d0)
+        (contPostL Toy.P Toy.L (crun (cinit CToy.d0) CToy.cpre).dur Toy.m1 Toy.w1)) 0 (cinit CToy.d0)
+        (absTrace (LogRec := Nat) OToy.C {} 0 OToy.goodLines) := by
+      rw [OToy.good_abs]
+      exact cAll_mono _ _ (fun ph s ev h => contChk_weaken Toy.P Toy.L CToy.d0 _ Toy.m1 Toy.w1 ph s ev h) _ _ _
+        CToy.good_cont
+    exact (T4_8b_accepted_real_trace_powerloss_atomic_with_rollback_log Toy.P Toy.L OToy.C OToy.goodLines st hc CToy.d0
+      CToy.hinert CToy.cpre CToy.crest 10 Toy.m1 Toy.w1 OToy.good_abs hcont CToy.hwal Toy.hseq).1
 
 /-- … and `OToy.badLines`, the rendering of the trace of T4.6 (the second fsync of `ln` is missing), is REJECTED by
 `checkOrder`; its abstraction up to the rejected line is the prefix `CToy.badCut` of `CToy.bad`, which violates the
